@@ -29,6 +29,7 @@ type trans struct {
 	depth  int             // remaining unfolding budget for spec applications
 	reads  map[string]bool // heap keys read (footprint collection)
 	inSpec string
+	macroDepth int
 }
 
 func (t *trans) fail(f string, a ...any) {
@@ -73,6 +74,27 @@ func (t *trans) resolveType(s string) vtype {
 		return vtype{"(Array Ref Bool)", nil}
 	case "IntSet":
 		return vtype{"(Array Int Bool)", nil}
+	}
+	if strings.HasPrefix(s, "Arr[") {
+		// Arr[K]V : a mathematical array
+		d, end := 0, -1
+		for i := 3; i < len(s); i++ {
+			if s[i] == '[' {
+				d++
+			}
+			if s[i] == ']' {
+				d--
+				if d == 0 {
+					end = i
+					break
+				}
+			}
+		}
+		if end > 0 {
+			k := t.resolveType(s[4:end])
+			v := t.resolveType(s[end+1:])
+			return vtype{fmt.Sprintf("(Array %s %s)", k.sort, v.sort), nil}
+		}
 	}
 	if strings.HasPrefix(s, "Set[") && strings.HasSuffix(s, "]") {
 		in := t.resolveType(s[4 : len(s)-1])
@@ -220,6 +242,9 @@ func (t *trans) expr(e cExpr) (string, vtype) {
 			return "(mod " + a + " " + b + ")", at
 		}
 	case *cField:
+		if addr, gt, ok := t.place(x); ok {
+			return t.loadAt(addr, gt), vtype{c.sortOf(gt), gt}
+		}
 		s, vt := t.expr(x.X)
 		if vt.gt == nil {
 			t.fail("field %s of a value without Go type (%s)", x.F, x.X.String())
@@ -250,12 +275,15 @@ func (t *trans) expr(e cExpr) (string, vtype) {
 		}
 		t.fail("field %s of non-struct %s (%s)", x.F, vt.gt, x.X.String())
 	case *cIndex:
+		if addr, gt, ok := t.place(x); ok {
+			return t.loadAt(addr, gt), vtype{c.sortOf(gt), gt}
+		}
 		s, vt := t.expr(x.X)
 		i, it := t.expr(x.I)
 		if vt.gt != nil {
 			switch u := vt.gt.Underlying().(type) {
 			case *types.Slice:
-				addr := fmt.Sprintf("(elem (sdata %s) (+ (soff %s) %s))", s, s, i)
+				addr := fmt.Sprintf("(selem %s %s)", s, i)
 				return t.loadAt(addr, u.Elem()), vtype{c.sortOf(u.Elem()), u.Elem()}
 			case *types.Map:
 				_, mv, _ := c.mapKeys(vt.gt)
@@ -264,7 +292,8 @@ func (t *trans) expr(e cExpr) (string, vtype) {
 		}
 		if strings.HasPrefix(vt.sort, "(Array ") {
 			_ = it
-			return fmt.Sprintf("(select %s %s)", s, i), vtype{arrayElemSort(vt.sort), nil}
+			es := arrayElemSort(vt.sort)
+			return fmt.Sprintf("(select %s %s)", s, i), vtype{es, t.c.goTypeOfSort(es)}
 		}
 		t.fail("cannot index %s", x.X.String())
 	case *cQuant:
@@ -445,10 +474,44 @@ func (t *trans) call(x *cCall) (string, vtype) {
 		if vt.gt != nil {
 			if mt, ok := vt.gt.Underlying().(*types.Map); ok {
 				md, _, _ := c.mapKeys(vt.gt)
-				return fmt.Sprintf("(select %s %s)", t.read(md), s), vtype{fmt.Sprintf("(Array %s Bool)", c.sortOf(mt.Key())), nil}
+				ks := c.sortOf(mt.Key())
+				return fmt.Sprintf("(ite (= %s nil) ((as const (Array %s Bool)) false) (select %s %s))", s, ks, t.read(md), s), vtype{fmt.Sprintf("(Array %s Bool)", ks), nil}
 			}
 		}
 		t.fail("dom() on non-map")
+	case "vals":
+		s, vt := arg(0)
+		if vt.gt != nil {
+			if mt, ok := vt.gt.Underlying().(*types.Map); ok {
+				_, mv, _ := c.mapKeys(vt.gt)
+				return fmt.Sprintf("(select %s %s)", t.read(mv), s), vtype{fmt.Sprintf("(Array %s %s)", c.sortOf(mt.Key()), c.sortOf(mt.Elem())), mapValsType{mt}}
+			}
+		}
+		t.fail("vals() on non-map")
+	case "mk":
+		gt := typeArg(0)
+		st, ok := gt.Underlying().(*types.Struct)
+		if !ok || st.NumFields() != len(x.Args)-1 {
+			t.fail("mk(%s, ...): needs one argument per field", x.Args[0].String())
+		}
+		var fs []string
+		for i := 1; i < len(x.Args); i++ {
+			a, at := arg(i)
+			if at.sort != c.sortOf(st.Field(i-1).Type()) {
+				t.fail("mk: field %s has sort %s, got %s", st.Field(i-1).Name(), c.sortOf(st.Field(i-1).Type()), at.sort)
+			}
+			fs = append(fs, a)
+		}
+		sn := c.structSort(gt)
+		if len(fs) == 0 {
+			return "mk_" + sn, vtype{sn, gt}
+		}
+		return fmt.Sprintf("(mk_%s %s)", sn, strings.Join(fs, " ")), vtype{sn, gt}
+	case "store":
+		a, vt := arg(0)
+		k, _ := arg(1)
+		v, _ := arg(2)
+		return fmt.Sprintf("(store %s %s %s)", a, k, v), vt
 	case "ite":
 		cnd := t.formula(x.Args[0])
 		a, at := arg(1)
@@ -682,6 +745,16 @@ func (t *trans) specApp(sd *specDef, x *cCall) (string, vtype) {
 		argSorts = append(argSorts, pt.sort)
 	}
 	c.usedSpecs[sd.Name] = true
+	if sd.Macro {
+		if t.macroDepth > 8 {
+			t.fail("macro %s: expansion too deep (recursive?)", sd.Name)
+		}
+		bt := &trans{c: c, pkg: sd.Pkg, vars: map[string]tvar{}, cur: t.cur, old: t.old, depth: t.depth, bound: t.bound, reads: t.reads, macroDepth: t.macroDepth + 1}
+		for i, p := range sd.Params {
+			bt.vars[p.Name] = tvar{plain[i], st.resolveType(p.Type)}
+		}
+		return bt.expr(sd.Body)
+	}
 	sym := "spec_" + sd.Name
 	c.declFun(sym, argSorts, ret.sort)
 	app := sym
@@ -708,8 +781,75 @@ func (t *trans) specApp(sd *specDef, x *cCall) (string, vtype) {
 			if bvt.sort != ret.sort {
 				t.fail("spec %s: body has sort %s, declared %s", sd.Name, bvt.sort, ret.sort)
 			}
-			c.assume(fmt.Sprintf("(= %s %s)", app, body))
+			if ret.sort == "Bool" && (strings.Contains(body, "(forall ") || strings.Contains(body, "(exists ")) {
+				// two implications instead of an equivalence: every quantifier then has a definite polarity
+				// and can be skolemised / instantiated by E-matching instead of falling back to MBQI
+				c.assume(fmt.Sprintf("(=> %s %s)", app, body))
+				c.assume(fmt.Sprintf("(=> %s %s)", body, app))
+			} else {
+				c.assume(fmt.Sprintf("(= %s %s)", app, body))
+			}
 		}
 	}
 	return app, ret
+}
+
+// place computes the address of an addressable expression (slice element, field through a pointer or of
+// another place) so that only the needed cells are read.
+func (t *trans) place(e cExpr) (addr string, gt types.Type, ok bool) {
+	c := t.c
+	switch x := e.(type) {
+	case *cIndex:
+		// only slices are addressable
+		s, vt := t.expr(x.X)
+		if vt.gt == nil {
+			return "", nil, false
+		}
+		sl, isSl := vt.gt.Underlying().(*types.Slice)
+		if !isSl {
+			return "", nil, false
+		}
+		i, _ := t.expr(x.I)
+		return fmt.Sprintf("(selem %s %s)", s, i), sl.Elem(), true
+	case *cField:
+		var base string
+		var st types.Type
+		if a, g, ok := t.place(x.X); ok {
+			if el := ptrElem(g); el != nil {
+				// the place holds a pointer: load it, then take the field
+				base, st = t.loadAt(a, g), el
+			} else {
+				base, st = a, g
+			}
+		} else {
+			s, vt := t.expr(x.X)
+			el := ptrElem(vt.gt)
+			if el == nil {
+				return "", nil, false
+			}
+			base, st = s, el
+		}
+		stt, isStruct := st.Underlying().(*types.Struct)
+		if !isStruct {
+			return "", nil, false
+		}
+		for i := 0; i < stt.NumFields(); i++ {
+			if stt.Field(i).Name() == x.F {
+				return fmt.Sprintf("(fld %s %d)", base, c.w.fieldID(st, i)), stt.Field(i).Type(), true
+			}
+		}
+		t.fail("no field %s in %s", x.F, st)
+	}
+	return "", nil, false
+}
+
+// mapValsType marks the Go type of vals(m); only its element type is used.
+type mapValsType struct{ *types.Map }
+
+// goTypeOfSort recovers the Go struct type of a struct sort (for field access on array elements).
+func (c *smtctx) goTypeOfSort(sort string) types.Type {
+	if c.sortTypes == nil {
+		return nil
+	}
+	return c.sortTypes[sort]
 }
